@@ -36,7 +36,8 @@ def check(ctx):
 
     # --------------------------------------------------------------- R1 atomic publish
     r1 = ctx.rule('R1', 'entries and version stamp are published only by moving a closed mkstemp file; nobody opens them for writing', floor=8)
-    OPQ = ('_cache_is_valid', '_get_filename', '_remove_filename', '_clean')
+    KEYFN = key_method(ctx)
+    OPQ = ('_cache_is_valid', KEYFN, '_remove_filename', '_clean')
     for qn, what in (('store', 'cache entry'), ('_check_cache_version', 'version stamp')):
         S = gsa.summarise(ctx, 'cachestore', 'CacheStore.' + qn, opaque=OPQ)
         fn = S.func
@@ -61,7 +62,7 @@ def check(ctx):
             r1.check(len(inwith) == 1 and (FD in inwith[0].value), '%s: single payload write' % what, rel, inwith[0].line, 'payload writes: %s' % [e.value[:80] for e in writes])
         if moves and len(moves[0].args) > 1:
             dst = moves[0].args[1]
-            exp = 'self._get_filename(%s)' % S.P(1) if qn == 'store' else 'os.path.join(self._directory, _CACHE_VERSION_FILENAME)'
+            exp = 'self.%s(%s)' % (KEYFN, S.P(1)) if qn == 'store' else 'os.path.join(self._directory, _CACHE_VERSION_FILENAME)'
             r1.check(dst == exp, '%s: move destination' % what, rel, moves[0].line, 'destination is %s, expected %s' % (dst, exp))
     # who may open for writing: every open()/os.open/fdopen in cachestore with a write mode must be fdopen of an mkstemp fd
     opens = []
@@ -86,7 +87,7 @@ def check(ctx):
         if mod.rel == rel:
             continue
         for n in ast.walk(mod.tree):
-            if isinstance(n, ast.Attribute) and n.attr in ('_get_filename', '_directory', '_remove_filename', '_clean', '_cache_is_valid') \
+            if isinstance(n, ast.Attribute) and n.attr in (KEYFN, '_directory', '_remove_filename', '_clean', '_cache_is_valid') \
                     and 'cachestore' in P.src(n.value).lower():
                 users.append('%s:%d %s' % (mod.rel, n.lineno, P.src(n)))
     r1.check(not users, 'cache internals used only by CacheStore', rel, 1, 'cache internals used from outside: %s' % users,
@@ -183,7 +184,7 @@ def check(ctx):
         got = gsa.returns_under(LD, gsa.decide_by([(EXC, True), (VALID, True), (r'^@except:\(', False), (r' is None$', False)]))
         r3.check(bool(rmv) and [g[0] for g in got] == ['None'], 'broken entry removed and ignored', rel, tr.lineno,
                  'after a failed unpickling: removals %s, load returns %s' % ([e.value for e in rmv], [g[0][:60] for g in got]))
-    got = gsa.returns_under(LD, gsa.decide_by([(r'^@except:\(?(IOError|OSError|FileNotFoundError|EnvironmentError)', True), (r'errno == errno\.ENOENT$', True), (r'^self\._get_filename\(.*\) is None$', False)]))
+    got = gsa.returns_under(LD, gsa.decide_by([(r'^@except:\(?(IOError|OSError|FileNotFoundError|EnvironmentError)', True), (r'errno == errno\.ENOENT$', True), (r'^self\.%s\(.*\) is None$' % re.escape(KEYFN), False)]))
     r3.check([g[0] for g in got] == ['None'], 'missing entry -> None', rel, load.lineno, 'open() failing with ENOENT makes load return %s' % [g[0][:60] for g in got])
     tol = set()
     for n in ast.walk(rm):
@@ -286,7 +287,7 @@ def cache_key_rule(ctx, rule):
     """the cache entry of a file is named by a digest of the file's full path, losslessly encoded: two different GIR files never share an entry
     (shared with C16: the output must not depend on what another run left in the cache)"""
     py = ctx.py
-    GF = gsa.summarise(ctx, 'cachestore', 'CacheStore._get_filename')
+    GF = gsa.summarise(ctx, 'cachestore', 'CacheStore.' + key_method(ctx))
     fp = GF.P(1)
     hashed = []
     for g_, n in GF.returns:
@@ -295,6 +296,15 @@ def cache_key_rule(ctx, rule):
         for c in ast.walk(n):
             if isinstance(c, ast.Call) and re.match(r'^hashlib\.\w+$', gsa._unparse(c.func)) and c.args:
                 hashed.append(c.args[0])
+    hashed = [h for h in hashed]
+    if not hashed or all(isinstance(h, ast.Constant) for h in hashed):
+        hashed = []
+    if not hashed:
+        # incremental form: d = hashlib.sha1(); d.update(<bytes>); ... d.hexdigest()
+        recv = [t.id for t, v, st in P.stores_in(GF.func) if isinstance(t, ast.Name) and isinstance(v, ast.Call) and re.match(r'^hashlib\.\w+$', P.src(v.func)) and not v.args]
+        for e in gsa.find(GF, 'call', r'^(%s)\.update$' % '|'.join(map(re.escape, recv)) if recv else r'^$'):
+            if e.vnode is not None and e.vnode.args:
+                hashed.append(e.vnode.args[0])
     if not hashed:
         raise AnalysisError('CacheStore._get_filename: no hashlib digest in the returned path')
     LOSSLESS_ERRORS = (None, 'strict', 'surrogateescape', 'surrogatepass')
@@ -311,3 +321,16 @@ def cache_key_rule(ctx, rule):
         rule.check(ok, 'cache entry named by a digest of the full, losslessly encoded path', 'giscanner/cachestore.py', GF.func.lineno,
                    '%s; two different GIR files (Foo-1.0.gir in two directories, or names differing in non-ASCII characters) share one cache entry and the second is '
                    'served the parse of the first' % why, detail=gsa._unparse(h))
+
+
+def key_method(ctx):
+    """the CacheStore method that names the entry of a file: the one that calls hashlib (whatever it is called)"""
+    ms = ctx.py.methods('cachestore', 'CacheStore')
+    cands = [mn for mn, mf in sorted(ms.items()) if any(isinstance(c, ast.Call) and re.match(r'^hashlib\.\w+$', P.src(c.func)) for c in ast.walk(mf))]
+    helpers = [mn for mn in cands if not any(P.call_name(c) in ('self.' + o, 'CacheStore.' + o) for o in cands if o != mn for c in P.calls_in(ms[mn]))]
+    # prefer the method that returns a path in the cache directory (it may delegate the digest to a static helper)
+    outer = [mn for mn, mf in sorted(ms.items()) if mn not in ('store', 'load') and any(P.call_name(c) in ['self.' + h for h in cands] + ['CacheStore.' + h for h in cands] for c in P.calls_in(mf))]
+    pick = outer or cands
+    if len(pick) != 1:
+        raise AnalysisError('CacheStore: the method that derives the entry name (hashlib digest) was not found uniquely: %s' % pick)
+    return pick[0]
